@@ -184,9 +184,8 @@ class PkgSpecRunner:
     def _version(self, text):
         if not isinstance(text, str):
             raise AnalysisError(f"Version() of non-text {text!r}")
-        if vkey(text) is None:
-            raise PyRaise(BuiltinExcValue(EXC["InvalidVersion"], (text,)))
-        return VText(text)
+        from .pkgmodel import VersionVal
+        return VersionVal(text)   # raises InvalidVersion (PyRaise) on non-PEP 440 text
 
     def run(self, op, text):
         it = self.it
@@ -207,7 +206,7 @@ class PkgSpecRunner:
         def k(v):
             if v is None:
                 return None
-            if not isinstance(v, VText):
+            if not hasattr(v, "text"):
                 raise AnalysisError(f"bound is not Version(...): {v!r}")
             return vkey(v.text)
         return ("range", k(r.f["min"]), k(r.f["max"]), r.f["include_min"], r.f["include_max"])
